@@ -42,7 +42,7 @@ def _worker(args):
             instr.reset_loops()
             return H.run(e, cfg)
 
-        E.explore(body, deadline=t0 + budget_s if budget_s else None)
+        E.explore(body, deadline=t0 + budget_s if budget_s else None, shard=cfg.get("_shard"))
     except Exception:
         err = traceback.format_exc()
     st = E.stats.as_dict()
@@ -94,6 +94,21 @@ def main(argv=None):
     if a.only:
         cfgs = [c for c in cfgs if a.only in c["name"]]
     budget = getattr(H, "BUDGET_S", {}).get(a.tier)
+    # a heavy configuration may be split into shards: each explores the subtrees whose first D decisions hash to it
+    # (paths shorter than D decisions are explored by every shard: counted more than once, never missed)
+    ex = []
+    for c in cfgs:
+        n = int(c.get("shards", 1))
+        if n <= 1:
+            ex.append(c)
+            continue
+        for i in range(n):
+            d = dict(c)
+            d["name"] = "%s#%d/%d" % (c["name"], i, n)
+            d["_shard"] = (i, n, int(c.get("shard_depth", 8)))
+            d["weight"] = c.get("weight", 1) / n
+            ex.append(d)
+    cfgs = ex
     # self-checks of models / static lemmas (exceptions => inconclusive)
     pre = {}
     inconclusive = []
